@@ -709,11 +709,16 @@ def explore(run, max_paths=4096, stats=None, on_path=None):
     stats = stats if stats is not None else {}
     work = [[]]
     n = 0
+    t_start = time.time()
+    budget = float(os.environ.get('VERIF_CONFIG_BUDGET_S') or (900 if os.environ.get('VERIF_TIER', 'quick') == 'quick' else 7200))
     while work:
         prefix = work.pop()
         n += 1
         if n > max_paths:
             raise PathCap(f'more than {max_paths} paths')
+        if time.time() - t_start > budget:
+            # never a verdict: reported as an engine problem (exit 3) unless another obligation shows a violation
+            raise PathCap(f'wall-clock budget of {budget:g} s for one configuration exhausted after {n - 1} paths')
         c = Ctx(prefix, stats)
         _CTX = c
         try:
